@@ -48,20 +48,35 @@ def check_selection(ctx, rule):
     repo = ctx.repo
     f = repo.func('Controller.connection_command')
     n = 0
+    from ..sim import _literal_elts
     for p in paths_of(repo, f, unroll=1):
         for i, e in enumerate(p.events):
             if e.kind == 'store' and e.target == 'self.current_connection':
                 n += 1
-                v = norm(e.value)
+                val = e.value
+                # X[k] of a list known element by element on this path is that element
+                if isinstance(val, ast.Subscript) and isinstance(val.slice, ast.Constant) and isinstance(val.slice.value, int):
+                    elts = _literal_elts(val.value)
+                    if elts is not None and -len(elts) <= val.slice.value < len(elts):
+                        val = elts[val.slice.value]
+                v = norm(val)
                 before = [(x.text, x.value) for x in p.events[:i] if x.kind == 'decide']
                 if v == 'None':
-                    ok = ("'all' == arg", True) in before
-                    why = 'the selection is cleared only by `connection all`'
-                else:
+                    # cleared only because the command said so: some decision on the typed text (compared with a word) was taken as true
+                    ok = any(val_ is True and 'arg' in t_ and re.search(r"""(^|\W)'[\w*]+' == |== '[\w*]+'$""", t_) for t_, val_ in before)
+                    why = 'the selection is cleared only when the command asks for all connections'
+                    bad = 'the selected connection is cleared without the command having asked for it'
+                elif v.startswith('<elem') and '.connections()' in v:
+                    ok = True
+                    why = 'the selection is set to one of the listed connections'
+                    bad = ''
+                elif '_get_connection(' in v:
                     ok = (v + ' is None', False) in before or (v, True) in before
                     why = 'the selection is set only to a connection that was looked up and found'
-                ctx.check(ok, rule, 'selection:store:%s' % ('clear' if v == 'None' else 'set'), f.loc(e.node), why,
-                          'the selected connection is overwritten with %s before/without testing that it names a connection: a mistyped name silently changes the selection' % v[:60])
+                    bad = 'the selected connection is overwritten with %s before/without testing that it names a connection: a mistyped name silently changes the selection' % v[:60]
+                else:
+                    raise AnalysisError('%s: cannot tell where the value stored into the selection comes from: %s' % (rule, v[:80]))
+                ctx.check(ok, rule, 'selection:store:%s' % ('clear' if v == 'None' else 'set'), f.loc(e.node), why, bad)
     ctx.floor(rule, n, 2, 'stores to current_connection in connection_command')
     f_gc = repo.func('Controller._get_connection')
     rets = {norm(p.outcome[1]) for p in paths_of(repo, f_gc, unroll=1) if p.outcome[0] == 'return'}
@@ -192,6 +207,10 @@ def run(ctx):
                   '%s never (re)displays messages: a change applies to later arrivals only' % cname,
                   '%s reaches the message display (%s)' % (cname, [g.short for g in (cg.find_path(f, lambda g: g is f_mshow) or [])]))
     check_writers(ctx, 'C06.4', CTRL, 'display_matcher', [('Controller.__init__', lambda w: w.fresh), ('Controller.filter_command', None)], floor=2)
+    # .. and the filter object itself is not changed behind the attribute: nothing hands it to a position that is mutated in place
+    # (matcher.join and simplify() rewrite the lists of the matcher they are given)
+    from . import common as _cm6
+    _cm6.check_not_mutated_in_place(ctx, 'C06.4', 'display_matcher', 'the current filter')
     check_selection(ctx, 'C06.4')
     check_writers(ctx, 'C06.4', CTRL, 'current_connection', [('Controller.__init__', lambda w: w.fresh), ('Controller.connection_command', None)], floor=3)
 
